@@ -17,7 +17,7 @@ LEVEL = "exploration"
 META = {
     "engine": "model-monitor",
     "technique": "runtime monitor: reference discovery model (literal transcription of the statement, glob.glob based) compared with the server's workspace set and with workspace/symbol URIs after initialize over random trees x settings x channels",
-    "text": "Random directory trees (nested, empty directories, directories named like sources, every default suffix in mixed case, look-alike suffixes, dot-files) are combined with random source_dirs / excl_paths (literal and glob) / incl_suffixes / excl_suffixes given by command line or configuration file; after initialize the indexed set observed in the server and through workspace/symbol must equal the set computed by a 40-line transcription of the property. Sampled space.",
+    "text": "Random directory trees (nested, empty directories, directories named like sources, every default suffix in mixed case, look-alike suffixes, dot-files) are combined with random source_dirs / excl_paths (literal and glob) / incl_suffixes / excl_suffixes given by command line or configuration file; after initialize the indexed set observed in the server and through workspace/symbol must equal the set computed by a 40-line transcription of the property. Sampled space. Patterns with a trailing separator (relative and absolute), file stems equal to directory names and roots handed over through a symbolic link are included.",
     "note": "trusted: the reference model and Python's glob module; symlink-free trees; every file holds one uniquely named module so the protocol-level observation identifies files",
 }
 RULE = ("(tree, settings, channel) triples: trees of depth <=3 over 9 directory names and 24 file-name suffix variants; settings = source_dirs absent/"
